@@ -1,4 +1,5 @@
 import TantivyModel.Proofs.GC
+import TantivyModel.Proofs.Storage
 /-!
 # C10 — Garbage collection never removes a needed file and leaves no orphan
 -/
@@ -325,5 +326,65 @@ theorem C10_emptied_segment_counterexample :
   decide
 
 example : (committedMetas true [⟨[10, 11], 3⟩, ⟨[20, 21], 0⟩]).1 = [⟨[10, 11], 3⟩] := by decide
+
+/-- **after a crash, lifted**: the side condition of `C10_after_crash_partial` ("every existing
+file is listed in the image's .managed.json") is no longer assumed but derived. For every
+storage trace from the empty directory that respects R1–R3 (decided on the real log on every
+run), every prefix and every crash image in which the newest `.managed.json` survived (and which
+lists `meta.json`, as `Index::create` makes it do: hypothesis `hmeta`), recovery followed by one complete
+collection leaves only `meta.json` and files of the recovered commit.
+What remains false is the same statement for images with an OLDER `.managed.json`
+(`C10_managed_rename_counterexample`, finding S2). -/
+theorem C10_after_crash_registered (t : List Op) (hd : RegDisc Dir.empty t) (k : Nat) (img : LImage)
+    (hn : (img.files.map Prod.fst).Nodup)
+    (hi : CrashImage (Dir.empty.run (t.take k)) img.toImage)
+    (hm : lookupD img.atoms MANAGED = ((Dir.empty.run (t.take k)).atom MANAGED).visible)
+    (hmeta : ∃ b, lookupD img.atoms MANAGED = some b ∧ META ∈ b.refs) :
+    ∀ p ∈ (fullGC (ofImage img) []).dir, p ∈ living (ofImage img) := by
+  apply C10_after_crash_partial
+  intro p hp
+  simp only [ofImage, List.mem_append, List.mem_filterMap] at hp
+  rcases hp with ⟨e, he, hpe⟩ | ⟨e, he, hpe⟩
+  · -- a regular file of the image
+    obtain ⟨q, v⟩ := e
+    cases v with
+    | none => simp at hpe
+    | some w =>
+      simp only [Option.map_some, Option.some.injEq] at hpe
+      subst hpe
+      have hl : img.toImage.file q = some w := lookupD_of_mem_nodup img.files hn q (some w) he
+      obtain ⟨b, hb, hq⟩ := C10_existing_files_are_managed Dir.empty C10_rinv_empty t hd k img.toImage hi hm q
+        (by rw [hl]; simp)
+      have hb' : lookupD img.atoms MANAGED = some b := hb
+      simp only [ofImage, hb']
+      exact hq
+  · -- meta.json itself
+    obtain ⟨q, v⟩ := e
+    cases v with
+    | none => simp at hpe
+    | some w =>
+      by_cases hq : q = META
+      · simp only [hq, if_true, Option.some.injEq] at hpe
+        subst hpe
+        obtain ⟨b, hb, hmb⟩ := hmeta
+        simp only [ofImage, hb]
+        exact hmb
+      · simp [hq] at hpe
+
+/-- a log in which file 2 is registered, created, written; then the crash -/
+def regTrace : List Op :=
+  [ .atomicWrite MANAGED ⟨0, 0, 14, [0]⟩, .syncDir, .syncDir, .atomicWrite META ⟨0, 1, 90, []⟩, .syncDir,
+    .atomicWrite MANAGED ⟨0, 2, 30, [0, 2]⟩, .create 2, .write 2 5 ]
+
+/-- non-vacuity of `C10_after_crash_registered`: the image "everything applied" of `regTrace` -/
+example : ∀ p ∈ (fullGC (ofImage (Dir.empty.run regTrace).allApplied) []).dir,
+    p ∈ living (ofImage (Dir.empty.run regTrace).allApplied) := by
+  have hd : RegDisc Dir.empty regTrace := by
+    simp [regTrace, RegDisc, RegOK, Dir.step, Dir.empty, visibleManaged, AtomSt.visible, AtomSt.sync, upd,
+      FileSt.mayPresent, FileSt.sync, MANAGED, META]
+  have hi := quickImages_sound (Dir.empty.run regTrace) (cover_empty.run regTrace)
+    ⟨0, 0, 0, (Dir.empty.run regTrace).allApplied⟩ (by simp [quickImages])
+  exact C10_after_crash_registered regTrace hd regTrace.length _ (by decide)
+    (by simpa using hi) (by decide) ⟨⟨0, 2, 30, [0, 2]⟩, by decide, by decide⟩
 
 end TantivyModel.C10
